@@ -16,6 +16,7 @@ _MV = re.compile(r"\$([A-Za-z_][A-Za-z0-9_]*)")
 @lru_cache(maxsize=None)
 def compile_pat(src: str, mode: str = "eval"):
     py = _MV.sub(lambda m: "__mv_" + m.group(1), src.strip())
+    py = _hoist_ellipsis(py)
     if mode == "eval":
         return ast.parse(py, mode="eval").body
     body = ast.parse(py, mode="exec").body
@@ -25,6 +26,48 @@ def compile_pat(src: str, mode: str = "eval"):
     if isinstance(st, ast.Expr):
         return st
     return st
+
+
+def _hoist_ellipsis(py: str) -> str:
+    """`f(a=1, ...)` is not valid Python; rewrite every call whose last argument is `...` and that has
+    keyword arguments before it into `f(..., a=1)` (the matcher treats a trailing positional `...` as open end)."""
+    out = py
+    i = 0
+    while True:
+        j = out.find(", ...)", i)
+        if j < 0:
+            return out
+        # find the matching '(' of this ')'
+        depth = 0
+        k = j + 5
+        open_at = None
+        for x in range(k, -1, -1):
+            ch = out[x]
+            if ch in ")]}":
+                depth += 1
+            elif ch in "([{":
+                depth -= 1
+                if depth == 0:
+                    open_at = x
+                    break
+        if open_at is None:
+            return out
+        inner = out[open_at + 1 : j]
+        # keyword argument present at top level of inner?
+        d = 0
+        has_kw = False
+        for idx, ch in enumerate(inner):
+            if ch in "([{":
+                d += 1
+            elif ch in ")]}":
+                d -= 1
+            elif ch == "=" and d == 0 and inner[idx + 1 : idx + 2] != "=" and inner[idx - 1 : idx] not in ("=", "!", "<", ">"):
+                has_kw = True
+        if has_kw:
+            out = out[: open_at + 1] + "..., " + inner + ")" + out[j + 6 :]
+            i = open_at + 1
+        else:
+            i = j + 6
 
 
 def _is_mv(p):
@@ -74,6 +117,10 @@ def _m(p, n, b) -> bool:
         if pargs and _is_ellipsis(pargs[-1]):
             open_end = True
             pargs = pargs[:-1]
+        elif pargs and _is_ellipsis(pargs[0]):
+            # `f(..., kw=v)`: any positional arguments, the keywords listed must be present
+            open_end = True
+            pargs = pargs[1:]
         if len(nargs) < len(pargs) or (not open_end and len(nargs) != len(pargs)):
             return False
         for pa, na in zip(pargs, nargs):
